@@ -332,6 +332,24 @@ func check(c *enum.Ctx, k kase) (nontrivial bool) {
 		}
 		return true
 	case "phred-probe": // ProbE(q) = 10^(-q/10); Ephred inverse; monotone
+		if k.V == 254 {
+			// the top of the scale: whatever probability the score stands for (certainty, 0) converts back to
+			// it, through the functions and through a container
+			q := alphabet.Qphred(254)
+			if got := alphabet.Ephred(q.ProbE()); got != q {
+				fail("Ephred/inverse/top", "Ephred(Qphred(254).ProbE() = %g) = %d", q.ProbE(), got)
+			}
+			qs := alphabet.Qsolexa(127)
+			if got := alphabet.Esolexa(qs.ProbE()); got != qs {
+				fail("Esolexa/inverse/top", "Esolexa(Qsolexa(127).ProbE() = %g) = %d", qs.ProbE(), got)
+			}
+			p := quality.NewPhred("p", []alphabet.Qphred{7, 9}, alphabet.Sanger)
+			p.SetE(0, q.ProbE())
+			if e := p.EAt(0); math.IsNaN(e) || p.At(0) != q {
+				fail("phred-container/SetE/top", "SetE(0, %g) stored score %d, EAt = %g", q.ProbE(), p.At(0), e)
+			}
+			return true
+		}
 		if k.V > 253 {
 			return false
 		}
@@ -453,7 +471,7 @@ func check(c *enum.Ctx, k kase) (nontrivial bool) {
 
 func run(c *enum.Ctx) {
 	c.Rule("complete enumeration: kind x encoding x all 256 values (x 11 offsets for the probability grids: 0, +-0.2, +-0.4 and +-0.47, +-0.49, +-0.499 next to the rounding boundary); the same encode/decode/probability laws through quality.Phred, quality.Solexa and linear.QSeq (QEncode, QDecode, EAt, SetE, %q) after every two-step encoding history (built with encoding A, encoded once, optionally copied, SetEncoding(B) or the exported Encode field assigned B; also on a location that starts at 5 with the offset set through SetOffset) x all values; each kind of law also as the first use of the package in a fresh process (12 cold-start helper processes), and with eight goroutines making the first uses at once (6 processes, free-running); a case is non-trivial when the oracle applies (value inside the printable/representable range the statement names); distinct by (kind,encoding,value,offset)")
-	c.Assume("printable range: bytes 33..126 (Illumina1_5: 'B'..126; Solexa: scores from -31)", "sentinel scores 254/255 (Phred) and 127/-128 (Solexa) are excluded", "math.Pow/math.Log10 of this Go toolchain are the analytic reference (1e-12 relative tolerance)")
+	c.Assume("printable range: bytes 33..126 (Illumina1_5: 'B'..126; Solexa: scores from -31)", "sentinel scores 254/255 (Phred) and 127/-128 (Solexa) are excluded, except that the top scores 254 / 127 must survive score-to-probability-to-score", "math.Pow/math.Log10 of this Go toolchain are the analytic reference (1e-12 relative tolerance)")
 	add := func(k kase) {
 		c.Doing(0, k)
 		c.Eval()
